@@ -220,7 +220,7 @@ func (g *pacerGen) checkIntervals() {
 		}
 		sum := big.NewInt(0)
 		allow := idealBurst(g.sends[a].bw, g.sends[a].mds) // numerator; the rate term is kept over 4e9 below
-		rate := big.NewInt(0)                                // sum of 5*(bw/8)*dt
+		rate := big.NewInt(0)                              // sum of 5*(bw/8)*dt
 		for b := a; b < n; b++ {
 			if b > a {
 				dt := g.sends[b].t - g.sends[b-1].t
